@@ -2168,7 +2168,14 @@ def _operands_share_rows(expr):
     """Whether all frame operands of an elementwise ``expr`` hold the same rows,
     so that the result is as long as any one of them.  Operands with different
     rows are aligned on their labels and give the union."""
-    frames = [dep for dep in expr.dependencies() if dep.ndim > 0]
+    frames = [
+        dep
+        for dep in expr.dependencies()
+        # a single-partition operand of lower dimension is broadcast to every
+        # partition (aligned with the columns): it does not contribute rows
+        if dep.ndim > 0
+        and not (isinstance(expr, Blockwise) and expr._broadcast_dep(dep))
+    ]
     return len({_row_source(dep)._name for dep in frames}) <= 1
 
 
